@@ -500,6 +500,7 @@ func run(c *rt.Ctx) {
 	t0 := time.Now()
 	runRep(c, ins, dirs, reps)
 	runSame(c, ins)
+	runPlanner(c)
 	t1 := time.Now()
 	pstats := runPerm(c)
 	pstats["wall_s"] = time.Since(t1).Seconds()
@@ -512,6 +513,7 @@ func run(c *rt.Ctx) {
 		"in all runs and for 4 seeded write orders, and Validate() accepts the sum file just written. "+
 		"(1b) same objects: per input, PlanChanges 5 times on the SAME change slice, Schema/RealmDiff + PlanChanges 5 times on the SAME two graphs, "+
 		"MarshalHCL(current/desired) of those graphs before and after: all identical (operations do not consume their inputs). "+
+		"(1c) planner: a long-lived migrate.Planner driven through Plan / PlanSchema / WritePlan interleaved with directory changes made from outside must plan, at every step, exactly what a fresh Planner plans for the same directory and desired schema. "+
 		"(2) permutation: top-level blocks of HCL sources (every permutation when ≤5 blocks, else 50 seeded) as one document and split into "+
 		"several files: multiset of planned statements (cmd, comment, reverse) equal to the unpermuted source's, order-normalised dump of the "+
 		"evaluated graph equal, differ both ways empty, and for SQLite both plans executed on real go-sqlite3 databases with equal PRAGMA "+
@@ -611,6 +613,24 @@ func replay(c *rt.Ctx, raw json.RawMessage) {
 			return
 		}
 		fmt.Println("input not found:", cs.Input)
+	case "planner":
+		for _, sc := range plScenarios() {
+			if sc.Name != cs.Input {
+				continue
+			}
+			why, key, tr := onePlanner(sc)
+			for _, t := range tr {
+				fmt.Println(t)
+			}
+			if why != "" {
+				c.Violation(key, why, cs, map[string]any{"trace": tr})
+				fmt.Println("VIOLATED:", key, why)
+			} else {
+				fmt.Println("held")
+			}
+			return
+		}
+		fmt.Println("scenario not found:", cs.Input)
 	case "same":
 		for _, in := range allInputs(cs.Seed, cs.NEdit) {
 			if in.Name != cs.Input {
